@@ -106,6 +106,10 @@ fn main() {
         prop::c17::successive_main();
         std::process::exit(0);
     }
+    if extra.iter().any(|a| a == "--terminal") && entry.id == "C20" {
+        prop::c20::terminal_main();
+        std::process::exit(0);
+    }
     if extra.iter().any(|a| a == "--conformance") && entry.id == "C16" {
         prop::c16::conformance_main();
         std::process::exit(0);
